@@ -129,6 +129,167 @@ def check_infinity_report(prog, res):
     return n
 
 
+# ---- R06.4: evaluation order tolerates the documented aliasings c = a, c = b
+POINT_ROUTINE = re.compile(r"^ec[p2](Add|Sub|Dbl|Tpl|Neg)\w*$")
+
+
+def _coord(text, roots):
+    """(root parameter, coordinate index) of a canonical pointer text `a`, `a+n`, `a+n+n`; index None = whole point"""
+    m = re.match(r"^([A-Za-z_]\w*)((?:\+n)*)$", text.replace("ec->f->n", "n"))
+    if not m or m.group(1) not in roots:
+        return None
+    return m.group(1), m.group(2).count("+n")
+
+
+class AliasOrder(ir.Client):
+    """path state: (coordinates of the output point written so far, what the path knows about c == a / c == b).
+    An input coordinate read after the same coordinate of the output was written is a hazard when the path has not
+    tested whether that input is the output (the aliasings c = a and c = b are documented; a = b = c is excluded)."""
+
+    def __init__(self, f, prog, out, ins):
+        self.f, self.prog, self.out, self.ins = f, prog, out, ins
+        self.canon = vp.Canon(f)
+        self.bad = {}
+        self.reads = 0
+
+    def init(self, func):
+        return (frozenset(), frozenset())
+
+    def _alias_test(self, c):
+        c = strip(c)
+        if c.get("k") == "Bin" and c.get("op") in ("==", "!="):
+            x, y = strip(c["x"]), strip(c["y"])
+            if x.get("k") == "Ref" and y.get("k") == "Ref":
+                names = {x.get("n"), y.get("n")}
+                if self.out in names and (names - {self.out}) <= set(self.ins) and len(names) == 2:
+                    return (names - {self.out}).pop(), c["op"] == "=="
+        return None
+
+    def assume(self, c, pol, st, env, node):
+        written, known = st
+        t = self._alias_test(c)
+        if t is not None:
+            other, eq = t
+            same = eq if pol else not eq
+            known = known | {(other, same)}
+            if same:
+                # the fully aliased call is excluded: the other inputs are then distinct from the output
+                known = known | {(o, False) for o in self.ins if o != other}
+        return (written, known)
+
+    def _read(self, root, k, st, line, what):
+        written, known = st
+        self.reads += 1
+        if any(kn[0] == root for kn in known):
+            return
+        # a coordinate that received a copy of the same coordinate of this very input is unchanged if they alias
+        hit = {w for w in written if w[1] != root and (k is None or w[0] == k or w[0] is None)}
+        if hit:
+            self.bad.setdefault((line, what), (root, k))
+
+    def eval(self, e, st, env, node):
+        return self._walk(e, st, node.line)
+
+    def _walk(self, e, st, line):
+        if not isinstance(e, dict):
+            return st
+        k = e.get("k")
+        if k == "Call":
+            if e.get("callee") == "utilAssert":
+                return st
+            proto = self.prog.proto(e.get("callee"), self.f.unit) if e.get("callee") else None
+            reads, writes = [], []
+            for i, a in enumerate(e["a"]):
+                sa_ = strip(a)
+                if sa_.get("k") == "Cond":
+                    # c == a ? b : a  -- each arm under its condition
+                    for pol, arm in ((True, sa_["x"]), (False, sa_["y"])):
+                        st2 = self.assume(sa_["c"], pol, st, None, None)
+                        co = _coord(self.canon(arm), set(self.ins) | {self.out})
+                        if co and co[0] in self.ins:
+                            self._read(co[0], None if self._whole(e, i) else co[1], st2, line, ir.show(e)[:50])
+                    continue
+                if not sa_.get("p"):
+                    st = self._walk(a, st, line)
+                    continue
+                co = _coord(self.canon(a), set(self.ins) | {self.out})
+                if co is None:
+                    continue
+                const = bool(proto is not None and i < len(proto.params) and proto.params[i].get("pc"))
+                whole = self._whole(e, i)
+                if co[0] in self.ins:
+                    reads.append((co[0], None if whole else co[1]))
+                elif co[0] == self.out:
+                    if const or i > 0:
+                        pass          # reading the output point itself is always reading what was written
+                    if not const and i == 0:
+                        writes.append(None if whole else co[1])
+            for r_, k_ in reads:
+                self._read(r_, k_, st, line, ir.show(e)[:50])
+            if writes:
+                cn = e.get("callee") or ""
+                src = None
+                if cn in ("wwCopy", "qrCopy", "memCopy", "memMove") and len(reads) == 1 and reads[0][1] == writes[0]:
+                    src = reads[0][0]
+                st = (st[0] | {(w, src) for w in writes}, st[1])
+            return st
+        if k == "Bin" and e.get("op") in ir.ASSIGN_OPS:
+            st = self._walk(e["y"], st, line)
+            l = strip(e["x"])
+            if l.get("k") in ("Index", "Un"):
+                r = ir.root_ref(l)
+                if r is not None and r.get("n") == self.out:
+                    st = (st[0] | {(None, None)}, st[1])
+            return st
+        for c in ir.kids(e):
+            st = self._walk(c, st, line)
+        return st
+
+    def _whole(self, call, i):
+        """is argument i passed as a whole point (another point routine, or a copy of d*n words)"""
+        cn = call.get("callee") or ""
+        if POINT_ROUTINE.match(cn) or cn.startswith(("ecpIsOn", "ec2IsOn", "ecpSeemsOn", "ec2SeemsOn")):
+            return True
+        if cn in ("wwCopy", "wwEq", "wwCmp", "wwSetZero") and call["a"]:
+            n_ = ir.show(call["a"][-1])
+            return "*" in n_
+        return False
+
+
+def check_alias_order(prog, res):
+    """R06.4: in every point routine `f(c, a[, b], ec, stack)` of ecp.c / ec2.c, once a coordinate of the result c has
+    been written the same coordinate of an input is not read again unless the path tested whether that input is c."""
+    n = 0
+    for f in prog.all_funcs():
+        if f.body is None or f.relfile not in ("src/math/ecp.c", "src/math/ec2.c") or not POINT_ROUTINE.match(f.name):
+            continue
+        ps = f.params
+        if len(ps) < 3 or not ps[0].get("p") or ps[0].get("pc"):
+            continue
+        ins = [p["n"] for p in ps[1:3] if p.get("p") and p.get("pc") and (p.get("t") or "").replace(" ", "") == "constword*"]
+        if not ins:
+            continue
+        cl = AliasOrder(f, prog, ps[0]["n"], ins)
+        r = ir.run_paths(f, cl)
+        if r.truncated:
+            raise AnalysisBroken("path exploration truncated in %s" % f.name)
+        n += 1
+        if cl.bad:
+            for (line, what), (root, k_) in sorted(cl.bad.items()):
+                res.violation("R06.4-evaluation-order-tolerates-aliasing", function=f.name, file=f.relfile, line=line,
+                              construct="`%s` reads %s after the result's %s had been written" %
+                                        (what, root if k_ is None else "%s coordinate %d" % (root, k_),
+                                         "coordinates" if k_ is None else "coordinate %d" % k_),
+                              detail="ec.h allows the result to be %s: on this path nothing tested whether %s is the output point, so "
+                                     "the value read may already be the new one" % (root, root))
+        else:
+            res.proved("R06.4-evaluation-order-tolerates-aliasing", function=f.name, file=f.relfile, line=f.line,
+                       construct="%d input reads ordered before the writes of the same coordinate" % cl.reads,
+                       detail="no coordinate of %s is read after the same coordinate of the result was written, except under a "
+                              "test of the result against it" % " or ".join(ins))
+    return n
+
+
 def run(tier, seed=0):
     res = Result("C06", "other", tier)
     prog = ir.Program("w64")
@@ -136,6 +297,8 @@ def run(tier, seed=0):
     n1 = check_special_cases(prog, res, table)
     n2 = check_delegation(prog, res)
     n3 = check_infinity_report(prog, res)
+    n4 = check_alias_order(prog, res)
+    res.floor("point routines with aliasable result", n4, 20)
     res.floor("group-law routines with special cases", n1, 12)
     res.floor("derived routines", n2, 5)
     res.coverage["explanation"] = (
